@@ -87,6 +87,168 @@ def property_oracle(case, calls):
     return None
 
 
+RECOVER_C = 250 * 10**6      # concurrent scenarios: recovery time 250 ms, sleeps 350 ms
+SLEEP_C = 350000
+
+
+def gen_scripts(ctx):
+    n = 40 if ctx.tier == "quick" else 400
+    scripts = []
+    # directed family: a call forwarded while closed ends (late) after the breaker has been tripped by others
+    did = 0
+    for th in (0, 1, 2, 3):
+        for late in "EPO":
+            for trip in "EP":
+                for mock in (False, True):
+                    steps = [["start", 0, late]] + [["probe", trip] for _ in range(th + 1)] + \
+                            [["probe", "O"], ["sleep", SLEEP_C], ["release", 0], ["probe", "O"], ["probe", "E"],
+                             ["sleep", SLEEP_C], ["probe", "O"], ["probe", "O"]]
+                    scripts.append({"id": 2 * 10**6 + did, "threshold": th, "recover_ns": RECOVER_C, "mock": mock, "script": steps})
+                    did += 1
+    for i in range(n):
+        r = ctx.rng
+        th = r.choice([0, 1, 1, 2, 3])
+        steps, held, nxt, sleeps = [], [], 0, 0
+        L = r.randint(5, 14)
+        for _ in range(L):
+            c = r.random()
+            if c < 0.35 and len(held) < 4:
+                steps.append(["start", nxt, r.choice("OEEP")])
+                held.append(nxt)
+                nxt += 1
+            elif c < 0.65 and held:
+                k = r.choice(held)
+                held.remove(k)
+                steps.append(["release", k])
+            elif c < 0.78 and sleeps < 2:
+                steps.append(["sleep", SLEEP_C])
+                sleeps += 1
+            else:
+                steps.append(["probe", r.choice("OEEP")])
+        for k in held:
+            steps.append(["release", k])
+        steps.append(["probe", "O"])
+        scripts.append({"id": 10**6 + i, "threshold": th, "recover_ns": RECOVER_C, "mock": r.random() < 0.3, "script": steps})
+    return scripts
+
+
+def script_model_line(case, steps, hi):
+    parts = ["S", str(case["threshold"]), str(case["recover_ns"]), "1" if case["mock"] else "0"]
+    index = {}
+    n = 0
+    for st, ob in zip(case["script"], steps):
+        now = str(ob["a"] if hi else ob["b"])
+        if st[0] == "start":
+            index[st[1]] = n
+            n += 1
+            parts += ["s", st[2], now]
+        elif st[0] == "probe":
+            n += 1
+            parts += ["p", st[1], now]
+        elif st[0] == "release":
+            parts += ["r", str(index[st[1]]), now]
+    return " ".join(parts)
+
+
+def script_observed(case, steps):
+    out = []
+    for st, ob in zip(case["script"], steps):
+        if st[0] == "start":
+            out.append("F" if ob["entered"] else ob.get("r", "?"))
+        elif st[0] == "probe":
+            out.append(ob.get("r", "?"))
+        elif st[0] == "release":
+            out.append(ob.get("r") or "-")
+            if out[-1] in "BM" :
+                out[-1] = "-"      # it had been rejected at start; nothing was released
+    return " ".join(out)
+
+
+def script_oracle(case, steps, hi):
+    """The property text at event granularity: entry decides by the state at entry; a forwarded call's
+    outcome is counted when it ends.  Independent of the Coq model."""
+    th, rec = case["threshold"], case["recover_ns"]
+    count, last = 0, 0
+    held = {}
+    exp = []
+    def entry(now):
+        nonlocal count
+        if count > th:
+            if now - last < rec:
+                return False
+            count = th >> 1
+        return True
+    def settle(o, now):
+        nonlocal count, last
+        if o == "O":
+            count = 0
+        else:
+            count += 1
+            last = now
+    for st, ob in zip(case["script"], steps):
+        now = ob["a"] if hi else ob["b"]
+        if st[0] == "start":
+            ok = entry(now)
+            held[st[1]] = (ok, st[2])
+            exp.append("F" if ok else ("M" if case["mock"] else "B"))
+        elif st[0] == "release":
+            ok, o = held.pop(st[1])
+            if ok:
+                settle(o, now)
+                exp.append(o)
+            else:
+                exp.append("-")
+        elif st[0] == "probe":
+            if entry(now):
+                settle(st[1], now)
+                exp.append(st[1])
+            else:
+                exp.append("M" if case["mock"] else "B")
+    return " ".join(exp)
+
+
+def run_concurrent(ctx):
+    scripts = gen_scripts(ctx)
+    rc, obs, err = hv.run_harness_parallel("c20", scripts, nproc=10, timeout=900)
+    byid = {o["id"]: o for o in obs}
+    ok = [c for c in scripts if c["id"] in byid and byid[c["id"]].get("steps")]
+    if len(ok) != len(scripts):
+        ctx.report("harness-crash-concurrent", "executor died on a concurrent scenario: " + err[-300:], {"failing_input": True})
+    lo = hv.run_model("c20", [script_model_line(c, byid[c["id"]]["steps"], False) for c in ok])
+    hi = hv.run_model("c20", [script_model_line(c, byid[c["id"]]["steps"], True) for c in ok])
+    inconclusive = validated = 0
+    for c, a, b in zip(ok, lo, hi):
+        steps = byid[c["id"]]["steps"]
+        seen = script_observed(c, steps)
+        ctx.count_case("script|" + json.dumps(c["script"]) + str(c["threshold"]), nontrivial=("B" in seen or "M" in seen))
+        if a != b or script_oracle(c, steps, False) != script_oracle(c, steps, True):
+            inconclusive += 1
+            continue
+        want = script_oracle(c, steps, False)
+        if seen != want:
+            ctx.report("breaker-concurrent:" + first_diff(seen, want), "concurrent scenario: observed [%s], the property requires [%s]" % (seen, want),
+                       {"case": c, "observed": seen, "expected": want, "model": a, "steps": steps, "failing_input": True})
+        elif seen != a:
+            ctx.report("correspondence-concurrent", "LTS model [%s] differs from the plugin [%s] on a concurrent scenario" % (a, seen),
+                       {"case": c, "observed": seen, "model": a, "failing_input": False,
+                        "correspondence": "Breaker.cstep vs circuitbreaker.IOHandler under concurrency"})
+        else:
+            validated += 1
+            if validated <= 2:
+                ctx.sample({"concurrent_script": c["script"], "threshold": c["threshold"], "observed": seen})
+    ctx.note("concurrent_scenarios", len(ok))
+    ctx.note("concurrent_validated", validated)
+    ctx.note("concurrent_inconclusive_timing", inconclusive)
+
+
+def first_diff(a, b):
+    A, B = a.split(" "), b.split(" ")
+    for i, (x, y) in enumerate(zip(A, B)):
+        if x != y:
+            return "step-kind-%s-got-%s-want-%s" % ("release" if y in "OEP-" and x in "OEP-" else "entry", x, y)
+    return "length"
+
+
 def run(ctx):
     ctx.level = "proof"
     ctx.assumptions += [
@@ -98,6 +260,7 @@ def run(ctx):
     ctx.prove()
     hv.build_harness("c20")
     hv.build_modelrun("c20")
+    run_concurrent(ctx)
     cases = gen_cases(ctx)
     rc, obs, err = hv.run_harness("c20", cases)
     byid = {o["id"]: o for o in obs}
@@ -175,6 +338,10 @@ def replay(ctx, path):
     hv.build_harness("c20")
     rc, obs, err = hv.run_harness("c20", [r["case"]])
     print(json.dumps(obs))
+    if obs and obs[0].get("steps"):
+        seen, want = script_observed(r["case"], obs[0]["steps"]), script_oracle(r["case"], obs[0]["steps"], False)
+        print("observed:", seen, " required:", want)
+        return 1 if seen != want else 0
     why = property_oracle(r["case"], obs[0]["calls"]) if obs else "crash"
     print("property oracle:", why)
     return 1 if why else 0
